@@ -7,7 +7,7 @@ from vlib import boot
 from vlib.engine import Outcome
 
 PROPERTY = 'C10'
-RULE = ('A real bp.agent.Agent (apps admin, fragment, bpsec + a recorder application at receive-chain order 30, fake '
+RULE = ('A real bp.agent.Agent (apps admin, fragment, bpsec, sand, safe as bp/app/__init__ loads them + a recorder application at receive-chain order 30, fake '
         'convergence layer) gets a generated receive routing table (0-5 entries over an alphabet of anchored regexes x '
         '{deliver, forward, delete}) and a generated stream of 1-12 received bundles drawn from a pool of 4 identities and '
         'their look-alikes differing in exactly one of source / creation time / sequence number / fragment offset / '
@@ -29,7 +29,11 @@ NODE = 'dtn://me/'
 PATTERNS = ['^dtn://a/', '^dtn://a/x', '^dtn://', '.*', r'^ipn:1\.', '^dtn://b/', '^ipn:', '^dtn://me/svc']
 ACTIONS = ['deliver', 'forward', 'delete']
 DESTS = [['dtn', '//a/'], ['dtn', '//a/x'], ['dtn', '//b/y'], ['ipn', 1, 2], ['ipn', 2, 1], ['dtn', '//me/'],
-         ['dtn', '//me/svc'], ['dtn', '//zzz/q']]
+         ['dtn', '//me/svc'], ['dtn', '//zzz/q'], ['dtn', '//me/safe'], ['dtn', '//me/sand'], ['ipn', 100, 1]]
+# endpoints that the SAFE and SAND applications of the node register for themselves (their own routing steps
+# claim these destinations, as the administrative application claims the node ID)
+APPS = {'safe': {'endpoint': 'dtn://me/safe'}, 'sand': {'endpoint': 'dtn://me/sand'}}
+APP_DESTS = {'dtn://me/safe': 'safe', 'dtn://me/sand': 'sand', 'ipn:100.1': 'sand'}
 SOURCES = [['dtn', '//src1/'], ['dtn', '//src2/'], ['ipn', 9, 1], ['dtn', '//me/']]
 
 
@@ -117,7 +121,7 @@ def execute(case):
     out = Outcome()
     bw.reset()
     routes = [(PATTERNS[p % len(PATTERNS)], a) for p, a in case['routes']]
-    node = bw.Node(NODE, rx_routes=routes, tx_routes=[('.*', 'dtn://next/', None)])
+    node = bw.Node(NODE, rx_routes=routes, tx_routes=[('.*', 'dtn://next/', None)], apps=APPS)
     finishes = []
     orig_finish = node.agent._finish_bundle
 
@@ -158,12 +162,26 @@ def execute(case):
             seen.add(ident)
             if dest_text == NODE:
                 expect = 'deliver'
+            elif dest_text in APP_DESTS:
+                expect = 'app'
             elif matching:
                 expect = matching[0][1]
             else:
                 expect = 'none'
-        n_fin, n_rec, n_sent = len(finishes), len(node.records(False)), len(node.sent())
+        n_fin, n_rec, n_sent, n_app = len(finishes), len(node.records(False)), len(node.sent()), len(node.app_records())
         err = node.receive(wire)
+        new_app = node.app_records()[n_app:]
+        # the SAFE / SAND applications of the node consume a bundle only when it is new and addressed to them
+        allowed_app = APP_DESTS.get(dest_text) if expect == 'app' and bundle['primary']['frag'] is None else None
+        for rec in new_app:
+            out.count('consumed-by:' + rec['app'])
+            if rec['app'] != allowed_app:
+                out.fail('consumed-by-application:%s:%s' % (rec['app'], expect if expect in ('dropped', 'ignored', 'none', 'app') else 'routed'),
+                         'the %s application consumed a bundle for %s (expected handling: %s) (step %d, routes %s)'
+                         % (rec['app'], dest_text, expect, step, routes))
+        if len(new_app) > 1:
+            out.fail('consumed-twice', 'one received bundle was consumed %d times by applications %s (step %d)'
+                     % (len(new_app), [x['app'] for x in new_app], step))
         new_fin = finishes[n_fin:]
         new_rec = node.records(False)[n_rec:]
         new_sent = [r.decode(x) for x in node.sent()[n_sent:]]
@@ -194,6 +212,12 @@ def execute(case):
         fin_actions = set()
         for _i, acts, _reason in new_fin:
             fin_actions |= set(acts)
+        if expect == 'app':
+            # claimed by an application's own routing step: only at-most-once and "nobody else gets it" are judged
+            out.label('expect:app')
+            if forwarded:
+                out.fail('wrong-action', 'a bundle for an application endpoint of the node was forwarded (%s)' % where)
+            continue
         if expect == 'deliver':
             if is_frag:
                 out.label('fragment-deliver-unjudged')
